@@ -59,13 +59,15 @@ pub struct Gen {
     pub cond: bool,
     pub fancy: bool,
     pub contg: bool,
+    /// common-syntax extras: named groups, non-capturing groups, scoped flag groups
+    pub common: bool,
 }
 impl Gen {
     pub fn new(cond: bool) -> Self {
-        Gen { memo: HashMap::new(), atoms: atoms_c01(), reps: reps_c01(), cond, fancy: true, contg: false }
+        Gen { memo: HashMap::new(), atoms: atoms_c01(), reps: reps_c01(), cond, fancy: true, contg: false, common: false }
     }
     pub fn with_atoms(atoms: Vec<Node>, reps: Vec<(u32, Option<u32>, Mode)>, cond: bool, fancy: bool) -> Self {
-        Gen { memo: HashMap::new(), atoms, reps, cond, fancy, contg: false }
+        Gen { memo: HashMap::new(), atoms, reps, cond, fancy, contg: false, common: false }
     }
     pub fn upto(&mut self, n: usize) -> Vec<Node> {
         let mut v = vec![];
@@ -103,6 +105,12 @@ impl Gen {
                 }
                 if self.cond {
                     out.push(CondGroup(1, b(c.clone()), b(Empty)));
+                }
+                if self.common {
+                    out.push(Group(Some(String::new()), b(c.clone())));
+                    for (on, off) in [("i", ""), ("s", ""), ("m", ""), ("x", ""), ("U", ""), ("", "i")] {
+                        out.push(Flags(on.into(), off.into(), Some(b(c.clone()))));
+                    }
                 }
             }
             for l in 1..n - 1 {
